@@ -72,6 +72,11 @@ def _map_call(run, P):
         isinstance(x, ast.Attribute) and isinstance(x.value, ast.Name) and x.value.id in (e, o)
         for fr in own_fragments(n) for x in walk_fragment(fr))]
     ok = bool(type_tests) and bool(uses) and not g.always_preceded(uses, type_tests)
+    if not type_tests and any("isinstance(" in norm(n.ast) for n in tests):
+        # the kinds of call that may meet are tested in another way (a plain call and a call
+        # with an empty set of keyword arguments admitted to each other, say)
+        raise AnalysisError("map_call: the test on the kinds of the two calls is of another form; "
+                            "not recognised")
     first_if = type_tests[0].label if type_tests else None
     run.ob("C17.type", f, first_if.test if first_if is not None else f.node, bool(ok),
            construct=f"if not isinstance({e}, type({o})): return []  dominates every use of the operands",
